@@ -391,6 +391,7 @@ def _impl(case):
         data = np.array([0.0, 0.1, 10.0, 10.1, 20.0, 19.9, 0.05, 10.05, 20.05, 0.0, 20.0, 10.0, 0.0] * 2)
         if g == "none":
             guess = None
+            np.random.seed(12345)  # scikit-learn's k-means initialisation draws from NumPy's global generator
         elif g == "other":
             guess = case.get("value", "not a model")
         else:
